@@ -141,8 +141,40 @@ pub fn main(args: &[String]) -> i32 {
             0
         }
         Some("ty") => crate::oracle::tyws::tool_main(&args[1..]),
+        Some("fmt") => {
+            // vcheck --tool fmt <file> [level] [config.json] [passes]
+            let text = std::fs::read_to_string(&args[1]).expect("read");
+            let level: u8 = args.get(2).and_then(|s| s.parse().ok()).unwrap_or(0);
+            let cfg: emmylua_formatter::LuaFormatConfig = match args.get(3).filter(|s| s.as_str() != "-") {
+                Some(p) => serde_json::from_str(&std::fs::read_to_string(p).expect("read cfg")).expect("cfg json"),
+                None => Default::default(),
+            };
+            let passes: usize = args.get(4).and_then(|s| s.parse().ok()).unwrap_or(1);
+            let mut t = text;
+            for _ in 0..passes {
+                t = crate::props::c05::run_formatter(&t, level, &cfg).unwrap_or_else(|e| format!("PANIC {e}"));
+            }
+            print!("{t}");
+            0
+        }
+        Some("mkcase") => {
+            // vcheck --tool mkcase <file> [level] [config.json] [selstart selend]  -> replay JSON for C05/C06 (C07 with a selection)
+            let text = std::fs::read_to_string(&args[1]).expect("read");
+            let level: u8 = args.get(2).and_then(|s| s.parse().ok()).unwrap_or(0);
+            let cfg: emmylua_formatter::LuaFormatConfig = match args.get(3).filter(|s| s.as_str() != "-") {
+                Some(p) => serde_json::from_str(&std::fs::read_to_string(p).expect("read cfg")).expect("cfg json"),
+                None => Default::default(),
+            };
+            let mut case = serde_json::to_value(crate::gens::fmt_input::FmtCase { text, level, cfg, src: "manual".into() }).unwrap();
+            if let (Some(a), Some(b)) = (args.get(4).and_then(|s| s.parse::<u32>().ok()), args.get(5).and_then(|s| s.parse::<u32>().ok())) {
+                case["sel"] = serde_json::json!([a, b]);
+                case["sel_kind"] = serde_json::json!("manual");
+            }
+            println!("{}", serde_json::to_string_pretty(&serde_json::json!({"property": "manual", "sig": "", "msg": "", "case": case})).unwrap());
+            0
+        }
         _ => {
-            eprintln!("tools: parse | lua_ast | lsp | nest-thresholds | flow | ty <file.lua> [prelude.lua]");
+            eprintln!("tools: parse | lua_ast | lsp | nest-thresholds | flow | ty | fmt | mkcase");
             2
         }
     }
